@@ -556,7 +556,14 @@ class Gen:
             cs = []
             for _ in range(rng.choice([1, 1, 2])):
                 pat = rng.choice(cands)
-                cs.append(CONS(pat, *[self._option(occurring) for _ in range(rng.choice([1, 1, 2, 3]))]))
+                opts = [self._option(occurring) for _ in range(rng.choice([1, 1, 2, 3]))]
+                foreign = [q for q in occurring if q not in named]
+                if (foreign or occurring) and rng.random() < 0.25:
+                    # an alternative naming a pattern that (mostly) has no value when the constraint is evaluated, BEFORE
+                    # alternatives that can hold: the remaining options still decide
+                    opts = [P(rng.choice(foreign or occurring))] + (opts if any(o['k'] != 'p' for o in opts)
+                                                                      else opts + [V(rng.choice(self.lits))])
+                cs.append(CONS(pat, *opts))
             r['cons'].append(cs)
 
 
